@@ -241,6 +241,10 @@ def check(ctx, replay=None):
     ctx.cov["migrations_during_assembly_that_took_effect"] = migrated_asm
     if cases and not migrated_asm:
         raise vlib.Machinery("no forced migration during assembly took effect: the schedule point of hook H3 is dead")
+    # the bit follows the CALL: in histories of the whole interface (Hist.tla) a load is preceded by compilations and by loads of equal and
+    # sibling policy values with the other setting
+    import histfam
+    histfam.run(ctx)
     ctx.cov["rule"] = ("every load case of LoaderGen with migration: {root, nobody} x NoNewPrivs x flags {0, tsync, log, tsync|log} x {no attempt, forced migration attempt at "
                        "the schedule point between prctl and seccomp (hook H2)} x {no attempt, forced migration during assembly (hook H3, before the library wires the goroutine)}, each in a fresh child under several GOMAXPROCS; non-trivial = a migration was attempted")
     ctx.assumptions += ["a migration attempt = a helper goroutine wires itself to the loader's OS thread while the loader goroutine is parked at hook H2; "
